@@ -513,8 +513,22 @@ def c03(ctx):
 
 
 
-def leaves_rule(ctx, rule):
+def leaves_rule(ctx, rule, only_subscript=False):
     F, rep = ctx.F, ctx.rep
+    if only_subscript:
+        class _Only:
+            """report wrapper that keeps only the subscript obligations"""
+            def __init__(self, inner):
+                self._i = inner
+            def __getattr__(self, n):
+                return getattr(self._i, n)
+            def ob(self, r, key, *a, **k):
+                if key.startswith("subscript::"):
+                    self._i.ob(r, key, *a, **k)
+            def fail(self, r, key, *a, **k):
+                if "subscript" in key:
+                    self._i.fail(r, key, *a, **k)
+        rep = _Only(rep)
     PV = "exec::produce_val::ProduceVal"
     LE = "frontend::ast::LiteralExpression"
     WR = "frontend::ast::WithRange"
@@ -581,6 +595,8 @@ def leaves_rule(ctx, rule):
                     ok, why = False, "the array operand is not evaluated (once) before the subscript"
                 elif not flows_into_(fn, bi, {"copy": {"l": 0, "p": []}}):
                     ok, why = False, "the result of Val::index is not what the expression yields"
+                elif common.path_to_return_avoiding(fn, [bi]):
+                    ok, why = False, "for some values the subscript expression yields something without asking Val::index: what is not indexable (or not a key) is no longer an error on that path"
         rep.ob(rule, "subscript::index(array,subscript)", ok, why, fn.loc(), how="array first, then subscript, index(array, subscript) returned")
     # names and pronouns: a clone of the looked-up value
     for m, look in (("visit_variable_name", "lookup_var"), ("visit_pronoun", "last_access")):
